@@ -558,6 +558,13 @@ func run(r *mon.Run) {
 			c2.url, c2.validityURL = "https://example.com:8443/index.html", "https://example.com:8444/v"
 			c2.desc = "validity-url different explicit port"
 			runCase(r, id, c2, "validity-url", 1)
+			// ports that agree only after numeric truncation / failed parsing: different origins all the same
+			for _, pp := range [][2]string{{"8443", "73979"}, {"73979", "8443"}, {"0", "65536"}, {"65535", "99999999999999999999"}, {"443", "65979"}, {"8443", "08443"}, {"1", "4294967297"}} {
+				c3 := baseCase(ver)
+				c3.url, c3.validityURL = "https://example.com:"+pp[0]+"/index.html", "https://example.com:"+pp[1]+"/v"
+				c3.desc = "validity-url port " + pp[0] + " vs " + pp[1]
+				runCase(r, id, c3, "validity-url", 1)
+			}
 		}
 		// F. integrity parameter
 		for _, in := range []string{"mi-draft2", "digest/mi-sha256-03", "digest/mi-sha256", "", "MI-DRAFT2", "digest/mi-sha256-03 "} {
